@@ -121,10 +121,13 @@ def _forall(n, f):
     return z3.ForAll([i], z3.Implies(z3.And(i >= 0, i < n), f(i)))
 
 
-def wf(t, d, root=None):
-    """WF(t).  Symbolic size: `d` (callable z3 Int -> z3 Int) is the depth witness of "every node reaches the root"
-    (d(root) = 0, d(i) = d(pid[i]) + 1 > 0 otherwise; the definition of contracts/common.py: assume_wf).  Concrete size (NArr columns):
-    reaching the root is the finite formula "n - 1 parent steps arrive at the root" and `d` is not used.
+WF_PARTS = ("one-length-n>=1-for-all-columns", "ids-are-positions", "root-has-no-parent", "every-other-parent-is-a-node", "every-node-reaches-the-root")
+
+
+def wf_parts(t, d, root=None):
+    """WF(t) as its five conjuncts (dict part name -> formula).  Symbolic size: `d` (callable z3 Int -> z3 Int) is the depth witness of
+    "every node reaches the root" (d(root) = 0, d(i) = d(pid[i]) + 1 > 0 otherwise; the definition of contracts/common.py: assume_wf).
+    Concrete size (NArr columns): reaching the root is the finite formula "n - 1 parent steps arrive at the root", `d` is not used.
     `root` (z3 Int) replaces node 0 as the root position (re-rooting with sorting switched off)."""
     nd = t.fields["ndata"].items
     ids, pid = nd["id"], nd["pid"]
@@ -132,7 +135,7 @@ def wf(t, d, root=None):
     if isinstance(ids, NArr):
         n = ids.shape[0]
         if n < 1 or any(a.shape != (n,) for a in nd.values()):
-            return z3.BoolVal(False)
+            return {p: z3.BoolVal(False) for p in WF_PARTS}
         nz = z3.IntVal(n)
         pz = [to_z3(x, "int") for x in pid.items]
         reach = [z3.IntVal(a) == r for a in range(n)]
@@ -142,11 +145,17 @@ def wf(t, d, root=None):
     else:
         n = nz = ids.nz()
         reaches = z3.And(d(r) == 0, _forall(n, lambda i: z3.Implies(i != r, z3.And(d(i) == d(_sel(pid, i)) + 1, d(i) > 0))))
-    return z3.And(nz >= 1, r >= 0, r < nz, *[_alen(nd[c]) == nz for c in nd],
-                  _forall(n, lambda i: _sel(ids, i) == i),
-                  _sel(pid, r) == -1,
-                  _forall(n, lambda i: z3.Implies(i != r, z3.And(_sel(pid, i) >= 0, _sel(pid, i) < nz))),
-                  reaches)
+    return {
+        "one-length-n>=1-for-all-columns": z3.And(nz >= 1, r >= 0, r < nz, *[_alen(nd[c]) == nz for c in nd]),
+        "ids-are-positions": _forall(n, lambda i: _sel(ids, i) == i),
+        "root-has-no-parent": _sel(pid, r) == -1,
+        "every-other-parent-is-a-node": _forall(n, lambda i: z3.Implies(i != r, z3.And(_sel(pid, i) >= 0, _sel(pid, i) < nz))),
+        "every-node-reaches-the-root": reaches,
+    }
+
+
+def wf(t, d, root=None):
+    return z3.And(*wf_parts(t, d, root).values())
 
 
 def fresh_depth(tag="d"):
@@ -161,50 +170,76 @@ def tree_is_fresh(E, y):
 
 
 def step_clauses(inputs=("x",), witness=None, root=None, may_return_input=False, admissible=None, result=None):
-    """the three step clauses for a carrier whose tree parameters are `inputs` (the first one is THE input of the pipeline step).
+    """the step clauses for a carrier whose tree parameters are `inputs` (the first one is THE input of the pipeline step).
     witness(E, v, o, ds) -> callable: depth witness of the result, given the witnesses `ds` of the inputs (default: the first input's own,
     right for operations that keep ids and parents);  root(E, v, o): root position of the result when it is not node 0;
-    admissible(E, v, o): the operation's argument domain (added to the hypothesis of the well-formedness clause);
-    result(E, v, o): the tree the clauses speak about when it is not `result` itself"""
+    admissible(E, v, o): the operation's argument domain (added to the hypothesis of the well-formedness clauses);
+    result(E, v, o): the tree the clauses speak about when it is not `result` itself.
+    The well-formedness conjunct is split into its five parts (one obligation each, sharing one hypothesis)."""
     from contracts.C12 import tree_unchanged
 
     def res_of(E, v, o):
         return result(E, v, o) if result is not None else v["result"]
 
-    def well_formed(E, v, o):
-        y = res_of(E, v, o)
-        if not isinstance(y, Obj) or "ndata" not in y.fields:
-            return False
-        ds = [fresh_depth(nm) for nm in inputs]
-        hyp = [wf(o[nm], d) for nm, d in zip(inputs, ds)]
-        if admissible is not None:
-            hyp.append(admissible(E, v, o))
-        w = witness(E, v, o, ds) if witness is not None else ds[0]
-        if w is None:
-            return False
-        if True:
-            # guard: the hypothesis of the clause (WF of the inputs, admissible arguments) must be satisfiable on this path, together
-            # with everything proved so far -- otherwise the implication below would hold vacuously
+    def live(E, v, nm):
+        """the input object itself at the exit (a carrier may rebind its parameter, e.g. `tree = tree.copy()`)"""
+        return E.spec_extra.get("step_inputs", {}).get(nm, v[nm])
+
+    def hypothesis(E, v, o):
+        key = ("step-hyp",)
+        if key not in E.ghost:
+            ds = [fresh_depth(nm) for nm in inputs]  # one witness per input and path: the parts below share the hypothesis
+            hyp = [wf(o[nm], d) for nm, d in zip(inputs, ds)]
+            if admissible is not None:
+                hyp.append(admissible(E, v, o))
+            E.ghost[key] = (ds, hyp)
+            # guard: the hypothesis (WF of the inputs, admissible arguments) must be satisfiable on this path together with everything
+            # proved so far -- otherwise the implications below would hold vacuously
             from pyvc.engine import Oblig
 
             E.covers.append(Oblig(f"{E.prop}/{E.cur_contract.short}/cover/step-hypothesis-reachable", list(E.pc) + hyp, z3.BoolVal(False), "cover", getattr(E, "variant", "")))
-        return z3.Implies(z3.And(*hyp), wf(y, w, root(E, v, o) if root is not None else None))
+        return E.ghost[key]
+
+    def well_formed(part):
+        def f(E, v, o):
+            y = res_of(E, v, o)
+            if not isinstance(y, Obj) or "ndata" not in y.fields:
+                return False
+            ds, hyp = hypothesis(E, v, o)
+            w = witness(E, v, o, ds) if witness is not None else ds[0]
+            if w is None:
+                return False
+            return z3.Implies(z3.And(*hyp), wf_parts(y, w, root(E, v, o) if root is not None else None)[part])
+
+        return f
 
     def fresh_or_input(E, v, o):
         y = res_of(E, v, o)
-        if may_return_input and y is v[inputs[0]]:
+        if may_return_input and y is live(E, v, inputs[0]):
             return True
         return isinstance(y, Obj) and tree_is_fresh(E, y)
 
     def untouched(E, v, o):
-        out = [tree_unchanged(v[nm], o[nm]) for nm in inputs]
+        out = [tree_unchanged(live(E, v, nm), o[nm]) for nm in inputs]
         if any(x is False for x in out):
             return False
         out = [x for x in out if x is not True]
         return z3.And(*out) if out else True
 
-    return [("step/result-is-well-formed", well_formed), ("step/nothing-older-written", untouched),
-            ("step/result-is-the-input-itself-or-freshly-allocated", fresh_or_input)]
+    return [(f"step/result-is-well-formed/{part}", well_formed(part)) for part in WF_PARTS] + \
+           [("step/nothing-older-written", untouched), ("step/result-is-the-input-itself-or-freshly-allocated", fresh_or_input)]
+
+
+def with_step_inputs(setup, inputs):
+    """wrap a contract's setup: the input tree OBJECTS are also handed to the clauses as ghost `step_inputs`"""
+    def g(S):
+        d = setup(S)
+        gh = dict(d.get("__ghost__") or {})
+        gh["step_inputs"] = {nm: d[nm] for nm in inputs}
+        d["__ghost__"] = gh
+        return d
+
+    return g
 
 
 # =========================================================================== Normalizer / RadiusReseter
@@ -300,8 +335,14 @@ def finalize(R, prop):
 
     def extend(key, owner, **kw):
         c = base(key, owner)
-        if not any(isinstance(cl, tuple) and cl[0].startswith("step/") for cl in c.ensures):
-            c.ensures.extend(step_clauses(**kw))
+        if any(isinstance(cl, tuple) and cl[0].startswith("step/") for cl in c.ensures):
+            return
+        inputs = kw.get("inputs", ("x",))
+        if c.variants:
+            c.variants = {k: with_step_inputs(f, inputs) for k, f in c.variants.items()}
+        else:
+            c.setup = with_step_inputs(c.setup, inputs)
+        c.ensures.extend(step_clauses(**kw))
 
     # ---- geometry (C12): ids and parents are never written, the input's depth witness serves the result
     for nm in ("AffineTransform.__call__", "AffineTransform.apply", "TranslateOrigin.transform", "TranslateOrigin.__call__"):
@@ -335,3 +376,24 @@ def finalize(R, prop):
         return z3.ForAll([j], z3.Implies(z3.And(j >= 0, j < zint(rem.n)), z3.Select(rem.cols[0], j) != 0))
 
     extend(f"{UT}:to_subtree", "C06", inputs=("swc_like",), witness=sub_witness, admissible=root_not_removed)
+
+    # ---- redirect_tree (C07).  sort=False: the new root stays at its old position new_root (the property's own exception), the depth
+    # witness is C07's ghost sdepth (distance to the new root);  sort=True: node 0 is the root and the witness is sdepth read through the
+    # row permutation of the final _sort_tree (ghost `presort`, recorded by C07's contract of _sort_tree)
+    def rr_witness(E, v, o, ds):
+        sdepth = E.spec_extra["sdepth"].f
+        if not v["sort"]:
+            return sdepth
+        if "presort" not in E.ghost:
+            return None
+        sg = E.ghost["presort"][1]
+        return lambda k: sdepth(z3.Select(sg, k))
+
+    def rr_root(E, v, o):
+        return None if v["sort"] else to_z3(o["new_root"], "int")
+
+    extend(f"{UT}:redirect_tree", "C07", inputs=("tree",), witness=rr_witness, root=rr_root)
+
+    # ---- cat_tree (C07): verified there for fixed small sizes (tree1 of 1-2 nodes, tree2 of 1-4 nodes); well-formedness of concrete-size
+    # tables is the finite formula, no witness is needed.  Both operands are inputs of the step: neither may be written
+    extend(f"{UT}:cat_tree", "C07", inputs=("tree1", "tree2"))
